@@ -28,12 +28,14 @@ import Driver.EventSerial
 import Driver.StreamGate
 import Driver.DbosTimer
 import Driver.SerialCtx
+import Driver.Slots
 
 def main (args : List String) : IO UInt32 := do
   let stdin ← IO.getStdin
   match args with
   | ["deployid"] => Drv.loop stdin Drv.DeployId.step (); return 0
   | ["engine"] => Drv.loop stdin Drv.Engine.step {}; return 0
+  | ["slots"] => Drv.loop stdin Drv.Slots.step {}; return 0
   | ["policy"] => Drv.loop stdin Drv.Policy.step (); return 0
   | ["handlers"] => Drv.loop stdin Drv.Handlers.step (); return 0
   | ["version"] => Drv.loop stdin Drv.Version.step (); return 0
